@@ -99,7 +99,7 @@ Nts4Special ==
     Pkt(4, 3, <<Ck("v256", 104), Auth("ok", 256, <<>>)>>, 0),
     Pkt(4, 3, <<Uid(32), Ck("v256", 104), Auth("ok", 256, <<>>), Auth("wrongKey", 256, <<>>)>>, 0),
     Pkt(4, 3, <<Uid(32), Ck("v256", 104), Auth("short", 256, <<>>)>>, 0),
-    Pkt(4, 3, <<Auth("wrongKey", 256, <<>>)>>, 0),
+    Pkt(4, 3, <<Auth("wrongKey", 256, <<>>)>>, 0), Pkt(4, 3, <<Auth("empty", 256, <<>>)>>, 0), Pkt(4, 3, <<Auth("empty", 256, <<>>)>>, 20),
     Pkt(4, 3, <<Uid(32), Ck("v256", 104), Auth("ok", 256, <<Ck("v256", 104), Ph(104)>>)>>, 0),
     Pkt(4, 3, <<Uid(32), Ck("v256", 104), Auth("ok", 256, <<>>)>>, 24),
     Pkt(4, 3, <<Uid(32), Ck("v256", 104), Auth("wrongKey", 256, <<>>), Bad("over", 28)>>, 0) }
@@ -108,7 +108,9 @@ Nts5 ==
       p \in {<<>>, <<Uid(32)>>, <<Uid(4)>>, <<Uid(32), RefReq(16, "in")>>}, c \in {Ck("v256", 104), Ck("foreign", 104)},
       d1 \in {<<>>, <<Draft("ok")>>}, h \in {<<>>, <<Ph(104)>>}, x \in {Auth("ok", 256, <<>>), Auth("wrongKey", 256, <<>>)},
       d2 \in {<<>>, <<Draft("ok")>>} }
-  \cup { Pkt(5, 3, <<Auth("wrongKey", 256, <<>>)>>, 0), Pkt(5, 4, <<Auth("wrongKey", 256, <<>>)>>, 0) }
+  \cup { Pkt(5, 3, <<Auth("wrongKey", 256, <<>>)>>, 0), Pkt(5, 4, <<Auth("wrongKey", 256, <<>>)>>, 0),
+         Pkt(5, 3, <<Auth("empty", 256, <<>>)>>, 0), Pkt(5, 3, <<Draft("ok"), Auth("empty", 256, <<>>)>>, 0),
+         Pkt(5, 3, <<Uid(32), Ck("v256", 104), Auth("empty", 256, <<>>)>>, 0) }
 SizeBodies == Plain4 \cup Plain3 \cup Plain5 \cup Nts4 \cup Nts4Special \cup Nts5
 SizeCfgs == { Cfg("deny", "ignore", r, {3, 4, 5}, 0, i) : r \in {"none", "deny"}, i \in {"s2"} }
 InfoCfgs == { Cfg("deny", "ignore", "none", {3, 4, 5}, 0, i) : i \in {"unsync", "s1", "s15", "leap"} }
